@@ -6,6 +6,7 @@ import (
 	"bytes"
 	"encoding/json"
 	"fmt"
+	"strconv"
 	"strings"
 )
 
@@ -265,7 +266,7 @@ func (s *BuiltinType) FilterJson(data json.RawMessage, _ *TypeLookup) (json.RawM
 			if err := json.Unmarshal(data, &tmp); err != nil {
 				return data, true, err
 			}
-			if i := int64(tmp); float64(i) != tmp {
+			if i, ok := exactInt(data); !ok {
 				return data, true, err
 			} else if b, jerr := json.Marshal(&i); jerr != nil {
 				return data, true, err
@@ -285,6 +286,53 @@ func (s *BuiltinType) FilterJson(data json.RawMessage, _ *TypeLookup) (json.RawM
 	default:
 		panic("invalid builtin type " + s.Id)
 	}
+}
+
+// exactInt returns the integer denoted by a JSON number, if it denotes an
+// integer which fits in an int64.
+//
+// The value is taken from the decimal text, not from its float64
+// approximation, which is only exact up to 2^53 and at 2^63 converts to an
+// int64 in an implementation-defined way.
+func exactInt(data []byte) (int64, bool) {
+	s := string(data)
+	neg := strings.HasPrefix(s, "-")
+	if neg {
+		s = s[1:]
+	}
+	exp := 0
+	if i := strings.IndexAny(s, "eE"); i >= 0 {
+		if e, err := strconv.Atoi(s[i+1:]); err != nil {
+			return 0, false
+		} else {
+			exp = e
+		}
+		s = s[:i]
+	}
+	if i := strings.IndexByte(s, '.'); i >= 0 {
+		exp -= len(s) - i - 1
+		s = s[:i] + s[i+1:]
+	}
+	// The value is now s * 10^exp, where s has only digits.
+	s = strings.TrimLeft(s, "0")
+	if s == "" {
+		return 0, true
+	}
+	for ; exp < 0; exp++ {
+		if !strings.HasSuffix(s, "0") {
+			return 0, false
+		}
+		s = s[:len(s)-1]
+	}
+	if len(s)+exp > 19 {
+		return 0, false
+	}
+	s += strings.Repeat("0", exp)
+	if neg {
+		s = "-" + s
+	}
+	i, err := strconv.ParseInt(s, 10, 64)
+	return i, err == nil
 }
 
 func (s *BuiltinType) String() string {
